@@ -59,6 +59,60 @@ fn expected_item(it: &Value) -> Value {
     }
 }
 
+fn item_json(it: Result<PrecisDerivedProperty, precis_tools::Error>) -> Value {
+    match it {
+        Ok(p) => json!({"ok": row_json_real(&p)}),
+        Err(e) => match e.line() {
+            Some(n) => json!({ "err": n }),
+            None => json!({"ioerr": true}),
+        },
+    }
+}
+
+/// the parser is an Iterator: whatever way its items are taken (nth, skip, step_by, count, last, fresh parsers each), they are
+/// the items repeated next() delivers.  Returns the first disagreement.
+pub fn protocol_check(path: &std::path::Path, items: &[Value]) -> Option<Value> {
+    let r = std::panic::catch_unwind(|| -> Option<Value> {
+        let open = || -> Option<CsvLineParser<std::fs::File, PrecisDerivedProperty>> { CsvLineParser::from_path(path).ok() };
+        let n = items.len();
+        if n > 400 {
+            return None;
+        }
+        for k in 0..=(n + 1) {
+            let got = open()?.nth(k).map(item_json);
+            if got.as_ref() != items.get(k) {
+                return Some(json!({"how": format!("nth({}) on a fresh parser", k), "expected": items.get(k), "actual": got}));
+            }
+            if k <= 3 || k + 2 >= n {
+                let v: Vec<Value> = open()?.skip(k).map(item_json).collect();
+                if v.as_slice() != &items[k.min(n)..] {
+                    return Some(json!({"how": format!("skip({}).collect()", k), "expected_items": n - k.min(n), "actual_items": v.len(), "first": v.first()}));
+                }
+            }
+        }
+        if open()?.count() != n {
+            return Some(json!({"how": "count()", "expected": n}));
+        }
+        if open()?.last().map(item_json).as_ref() != items.last() {
+            return Some(json!({"how": "last()"}));
+        }
+        let v: Vec<Value> = open()?.step_by(2).map(item_json).collect();
+        let e: Vec<Value> = items.iter().step_by(2).cloned().collect();
+        if v != e {
+            return Some(json!({"how": "step_by(2)"}));
+        }
+        // next() then nth(k)
+        let mut p = open()?;
+        let first = p.next().map(item_json);
+        let third = p.nth(1).map(item_json);
+        if first.as_ref() != items.get(0) || third.as_ref() != items.get(2) {
+            return Some(json!({"how": "next() then nth(1)"}));
+        }
+        None
+    });
+    r.unwrap_or_else(|_| Some(json!({"how": "panic in an iterator method"})))
+}
+
 pub fn read_file(path: &std::path::Path) -> Value {
     let r = std::panic::catch_unwind(|| {
         let parser: CsvLineParser<std::fs::File, PrecisDerivedProperty> = match CsvLineParser::from_path(path) {
@@ -133,6 +187,13 @@ pub fn replay_csv(doc: &Value, t: &mut Tally) {
     };
     if strip(&actual) != strip(&expected) {
         t.mismatch(json!({"k": "csv", "text": text, "expected": expected, "actual": actual}));
+    } else if bad_lines.is_empty() {
+        // the items are right when taken with next(); they must be the same items however they are taken
+        if let Some(items) = actual.as_array() {
+            if let Some(d) = protocol_check(&path, items) {
+                t.mismatch(json!({"k": "csv-iterator", "text": text, "items_by_next": items.len(), "what": d}));
+            }
+        }
     }
     // the same rows through FromStr, without the iterator
     // (index of the expected item of physical line i: an undecodable header yields an item of its own)
